@@ -75,7 +75,7 @@ inline Plan gen_plan(uint64_t seed, uint64_t index, Tier tier, int profile, bool
         {
             if (e > 0 && r.chance(0.5)) { if (r.chance(0.5)) g.op(OP_SET_FLAGS, {0, g.rnd(256)}); else { bool mm = r.chance(0.3); g.configure(0, mm); } }
             if (r.chance(0.2)) { int kind = r.chance(0.5) ? OP_COPY : OP_ASSIGN; int64_t xs = g.rnd(1u << 30); g.op(kind, {0, 1, xs}); g.eval(1, CHK_TWIN | CHK_FD); }
-            g.eval(0, CHK_TWIN | CHK_FD);
+            g.eval(0, CHK_TWIN | CHK_FD, -1, r.chance(0.15) ? 2 : 0);
         }
         if (r.chance(0.25))
         {
@@ -96,6 +96,8 @@ inline Plan gen_plan(uint64_t seed, uint64_t index, Tier tier, int profile, bool
             if (r.chance(0.25)) { int64_t dst = 1 + g.rnd(2); int kind = r.chance(0.5) ? OP_COPY : OP_ASSIGN; int64_t xs = g.rnd(1u << 30); g.op(kind, {0, dst, xs}); g.eval(dst, CHK_TWIN | CHK_TRACE); }
             g.eval(0, CHK_TWIN | CHK_TRACE);
         }
+        // the sum and the samples of a call made while other threads evaluate on the same optimizer
+        if (r.chance(0.2)) g.op(OP_CONCURRENT, {0, g.rnd(3), g.rnd(2), g.rnd(1u << 30), 0, 0});
         break;
     }
     case P_C09:
@@ -238,7 +240,7 @@ inline Plan gen_plan(uint64_t seed, uint64_t index, Tier tier, int profile, bool
             if (q > 0 && r.chance(0.4)) g.configure(0, r.chance(0.3));
             int functor = r.chance(0.4) ? 0 : (int)r.range(1, 3);
             double delta = (r.chance(0.5) ? 1.0 : -1.0) * r.logreal(1e-3, 1e3);
-            g.op(OP_CHECKGRAD, {0, g.rnd(1u << 30), g.rnd(5), r.chance(0.7) ? 1 : 0, functor, g.rnd(16), g.rnd(8), r.chance(0.12) ? 1 : 0}, {delta});
+            g.op(OP_CHECKGRAD, {0, g.rnd(1u << 30), g.rnd(5), r.chance(0.7) ? 1 : 0, functor, g.rnd(16), g.rnd(8), r.chance(0.12) ? 1 : 0, r.chance(0.25) ? 1 : 0}, {delta});
         }
         break;
     }
